@@ -6,6 +6,20 @@ let cells n l =
   go n l []
 let term l = l @ [Z0]
 let errno_in = ref Z0
+(* regex: the answer of harness `rem` (ret, then every slot of the array).  BIG = program too large to be worth running
+   here (the model is a list machine); the check then relies on the sanitizer/determinism oracles alone *)
+let re_big = 1200
+let re_answer p t n =
+  let pat = bytes_of_hex p and text = bytes_of_hex t in
+  if int_of_z (re_size pat) > re_big then "BIG" else
+  match re_query pat text (z_of_int n) with
+  | Oob i -> "OOB " ^ string_of_z i
+  | Fuel -> "FUEL"
+  | Ok RNoCompile -> "nocompile"
+  | Ok (RMatch (r, slots)) ->
+    if sign_of_z r < 0 then "-1 EINVAL untouched" else
+    String.concat " " (string_of_z r :: List.map (fun c -> match c with
+      | CNull -> "-1" | COff o -> string_of_z o | CStale -> "S") slots)
 let rec handle l =
   match List.rev l with
   | e :: r when String.length e > 1 && e.[0] = '@' ->      (* trailing @<errno>: the ambient errno the call starts with *)
@@ -93,6 +107,8 @@ and handle1 = function
            | Some b ->
              let rec slen k = function [] -> k | c :: r -> if c = Z0 then k else slen (k + 1) r in
              Printf.sprintf "%s%d %d %s" (Buffer.contents pre) n (slen 0 b) (hex_of_bytes b))))
+  | ["rem"; p; t; n] -> re_answer p t (int_of_string n)
+  | ["re"; p; t] -> re_answer p t 16
   | ["facts"] ->
     Printf.sprintf "ptr_tilde_strict=%b hex2bin_checks_max=%b atoi2_inf_bounded=%b num_clears_errno=%b num_big_as_double=%b"
       fact_ptr_tilde_strict fact_hex2bin_checks_max fact_atoi2_inf_bounded fact_num_clears_errno fact_num_big_as_double
